@@ -1,0 +1,110 @@
+//go:build verif
+
+package hsms
+
+import (
+	"sync/atomic"
+	"time"
+)
+
+// This file is compiled only with the `verif` build tag. It exposes constructors and thin
+// aliases over existing unexported code so an external harness can drive the real supervisor
+// step by step (owning the schedule) and call the real backoff function. It adds no behaviour and
+// no branch to production code.
+
+// VerifEvent names a supervisor event for the harness.
+type VerifEvent uint8
+
+const (
+	VerifEvTCPUp          = VerifEvent(evTCPUp)
+	VerifEvSelectAccepted = VerifEvent(evSelectAccepted)
+	VerifEvSelectLost     = VerifEvent(evSelectLost)
+	VerifEvDisconnect     = VerifEvent(evDisconnect)
+	VerifEvClose          = VerifEvent(evClose)
+	VerifEvT7Timeout      = VerifEvent(evT7Timeout)
+)
+
+// VerifReact is one recorded reaction call.
+type VerifReact struct{ Prev, Next ConnState }
+
+// VerifNotify is one drained notification.
+type VerifNotify struct{ Prev, Next ConnState }
+
+// VerifSupervisor wraps a real supervisor that has NO goroutines: the harness pops queued events
+// and runs the real step() itself, so every interleaving of the synchronous commits with the
+// supervisor's load/store window is under harness control.
+type VerifSupervisor struct {
+	s      *supervisor
+	reacts []VerifReact
+}
+
+// NewVerifSupervisor builds a real supervisor with an events queue of the given capacity.
+func NewVerifSupervisor(eventsCap int) *VerifSupervisor {
+	v := &VerifSupervisor{}
+	handlers := &atomic.Pointer[[]StateChangeHandler]{}
+	v.s = newSupervisorWithEventsCap(func(prev, next ConnState) {
+		v.reacts = append(v.reacts, VerifReact{prev, next})
+	}, handlers, eventsCap)
+	v.s.closeTimeout = func() time.Duration { return time.Second }
+
+	return v
+}
+
+func (v *VerifSupervisor) State() ConnState       { return v.s.State() }
+func (v *VerifSupervisor) CommitConnected() bool  { return v.s.CommitConnected() }
+func (v *VerifSupervisor) CommitSelected() bool   { return v.s.CommitSelected() }
+func (v *VerifSupervisor) CommitSelectLost() bool { return v.s.CommitSelectLost() }
+func (v *VerifSupervisor) Pending() int           { return len(v.s.events) }
+func (v *VerifSupervisor) Cap() int               { return cap(v.s.events) }
+func (v *VerifSupervisor) Closed() bool           { return v.s.closed }
+func (v *VerifSupervisor) LastReacted() ConnState { return v.s.lastReacted }
+func (v *VerifSupervisor) Dropped() uint64        { return v.s.droppedNotify.Load() }
+func (v *VerifSupervisor) Reacts() []VerifReact   { return v.reacts }
+
+// Inject enqueues ev exactly as the transport-facing entry points do (inject).
+func (v *VerifSupervisor) Inject(ev VerifEvent) { v.s.inject(fsmEvent(ev)) }
+
+// StepOne pops one queued event (if any) and runs the real step on it; hook runs inside step's
+// load->store window (testHookAfterStateLoad). It returns the event processed.
+func (v *VerifSupervisor) StepOne(hook func()) (VerifEvent, bool) {
+	select {
+	case ev := <-v.s.events:
+		if hook != nil {
+			v.s.testHookAfterStateLoad = func(fsmEvent) { hook() }
+		}
+		v.s.step(ev)
+		v.s.testHookAfterStateLoad = nil
+
+		return VerifEvent(ev), true
+	default:
+		return 0, false
+	}
+}
+
+// DrainNotify removes and returns up to max queued notifications (max <= 0: all).
+func (v *VerifSupervisor) DrainNotify(max int) []VerifNotify {
+	var out []VerifNotify
+	for max <= 0 || len(out) < max {
+		select {
+		case sc := <-v.s.notify:
+			out = append(out, VerifNotify{sc.prev, sc.next})
+		default:
+			return out
+		}
+	}
+
+	return out
+}
+
+// NotifyQueued is the number of undelivered notifications.
+func (v *VerifSupervisor) NotifyQueued() int { return len(v.s.notify) }
+
+// VerifTransition is the pure state table.
+func VerifTransition(cur ConnState, ev VerifEvent) (ConnState, bool) {
+	return transition(cur, fsmEvent(ev))
+}
+
+// VerifNextBackoffDelay is the real reconnect backoff step.
+func VerifNextBackoffDelay(cur time.Duration, multiplier float64, ceil time.Duration) time.Duration {
+	return nextBackoffDelay(cur, multiplier, ceil)
+}
